@@ -208,3 +208,44 @@ func H15MainHistory() {
 	}
 	vndObserveStr("first", first)
 }
+
+// H14Assume: the statistics shown are those of the *unit's* assumption. Two input files
+// declare unit metadata for "widgets" in a symbolic choice of layouts (no line; better=lower;
+// assume=exact alone, after or before another pair on the same line, on a second line; a pair
+// repeated from the first file before the new one). Exactly when some line declares
+// assume=exact, the cells show the exact value (no interval, the plain delta, n=1); otherwise
+// the median of one measurement with an unbounded interval and no significant difference.
+func H14Assume() {
+	l1 := []string{"", "Unit widgets better=lower\n", "Unit widgets assume=exact\n"}
+	l2 := []string{"", "Unit widgets better=lower assume=exact\n", "Unit widgets assume=exact better=lower\n", "Unit widgets better=lower\n",
+		"Unit widgets better=lower\nUnit widgets assume=exact\n", "Unit other assume=exact\n"}
+	i1, i2 := vndChoice("first-file", len(l1)), vndChoice("second-file", len(l2))
+	exact := i1 == 2 || i2 == 1 || i2 == 2 || i2 == 4
+	after := vndBool("metadata-after-the-result")
+	mk := func(unitLines, v string) []byte {
+		if after {
+			return []byte("BenchmarkP 1 " + v + " widgets\n" + unitLines)
+		}
+		return []byte(unitLines + "BenchmarkP 1 " + v + " widgets\n")
+	}
+	vndFile("f1.txt", mk(l1[i1], "5"))
+	vndFile("f2.txt", mk(l2[i2], "7"))
+	var out, errOut bytes.Buffer
+	err := benchstat(&out, &errOut, []string{"-format", "csv", "f1.txt", "f2.txt"})
+	vndReach("h14:assume")
+	vndAssert(err == nil, "command-succeeds")
+	row := ""
+	for _, line := range strings.Split(out.String(), "\n") {
+		if strings.HasPrefix(line, "P,") {
+			row = line
+		}
+	}
+	if exact {
+		vndAssert(row == "P,5,0%,7,0%,+40.00%,n=1", "exact-unit-shows-exact-statistics")
+		vndAssert(!strings.Contains(errOut.String(), "need >="), "exact-unit-has-no-sample-size-warnings")
+	} else {
+		vndAssert(row == "P,5,∞,7,∞,~,p=1.000 n=1", "unit-without-assumption-shows-distribution-free-statistics")
+		vndAssert(strings.Contains(errOut.String(), "need >="), "small-samples-are-warned-about")
+	}
+	vndObserveStr("out", out.String())
+}
